@@ -132,7 +132,7 @@ def cmdRun (spec : Bool) (verbose : Bool) (a : List String) : String :=
     let evalF := ""
     if spec then
       -- what Bitcoin's rules prescribe, in the same line format
-      if !Spec.inDomain 0xb9 c.script then "REFUSED:invalid-script"
+      if !Spec.inDomain 0xba c.script then "REFUSED:invalid-script"
       -- BIP342: a tapscript containing an OP_SUCCESSx opcode is not executed at all; a debugger must refuse it
       else if c.sigver == .TAPSCRIPT && Spec.hasOpSuccess c.z c.script then "REFUSED:op-success"
       else
